@@ -612,6 +612,9 @@ def c04_r6(ctx):
         base = a0.value.value if isinstance(a0, ast.Attribute) and a0.attr == "name" and isinstance(a0.value, ast.Subscript) else None
         base = env_.get(base.id, base) if isinstance(base, ast.Name) else base
         good = base is not None and norm(base) == "generator.get_classes()"
+        # ... and it is the FIRST class of the fragment (the fragment's own class; nested classes follow it)
+        idx = a0.value.slice if isinstance(a0, ast.Attribute) and isinstance(a0.value, ast.Subscript) else None
+        good = good and is_const(idx, 0)
         par = None
         for n in walk_no_nested(fr.node):
             if isinstance(n, ast.If) and any(apps[0] is x for s_ in n.body for x in ast.walk(s_)):
@@ -870,7 +873,7 @@ def c04_r4(ctx):
 
 
 # ====================================================================== C09
-@rule("C09.R1", "every producer of used enums runs before enums are pruned", min_instances=4)
+@rule("C09.R1", "every producer of used enums runs before enums are pruned", min_instances=4, also=["C03", "C04", "C06"])
 def c09_r1(ctx):
     repo = ctx.repo
     pg = repo.cls(PG)
@@ -941,7 +944,7 @@ def c09_r1(ctx):
     ctx.check(good, key(ge_, "all"), f"with include_all_enums=true not all enums are generated ({[_tti(x) for x in o]})", ge_.loc(), okmsg="include_all_enums=true -> generate()")
 
 
-@rule("C09.R2", "every generator that emits enum references feeds the used-enum list", min_instances=5, also=["C04"])
+@rule("C09.R2", "every generator that emits enum references feeds the used-enum list", min_instances=5, also=["C04", "C03", "C06", "C01"])
 def c09_r2(ctx):
     repo = ctx.repo
     pg = repo.cls(PG)
@@ -1314,7 +1317,7 @@ def _has_write_effect(repo, fi: FuncInfo, seen=None, depth=0) -> bool:
     return False
 
 
-@rule("C17.R4", "everything that can reject the input runs before the first write", min_instances=8)
+@rule("C17.R4", "everything that can reject the input runs before the first write", min_instances=10)
 def c17_r4(ctx):
     repo = ctx.repo
     pgen = repo.func(PG + ".generate")
@@ -1354,6 +1357,18 @@ def c17_r4(ctx):
             late = [x for x in vs if any(x.id in g.reach_after(w) for w in writers)]
             ctx.check(not early and not late, key(fi, f"{v} before writes"), f"{v} does not run before every write ({'write reachable without it' if early else 'it runs after a write'})", fi.loc(vs[0].ast),
                       okmsg=f"main.{fn}: {v} precedes every write")
+        # what was validated is what is used: the validated name is not rebound between its validation and the writers
+        for vn in nodes_calling("assert_valid_schema"):
+            call = next((c for c in ast.walk(vn.ast) if isinstance(c, ast.Call) and dotted(c.func) == "assert_valid_schema" and allargs(c)), None)
+            arg = strip_pre(allargs(call)[0]) if call is not None else None
+            if not isinstance(arg, ast.Name):
+                continue
+            after = g.reach_after(vn)
+            rebinds = [n for n in g.stmts() if n.id in after and n.ast is not None and n.kind == "stmt" and isinstance(n.ast, (ast.Assign, ast.AnnAssign, ast.AugAssign))
+                       and any(isinstance(t, ast.Name) and t.id == arg.id and isinstance(t.ctx, ast.Store) for t in ast.walk(n.ast))]
+            ctx.check(not rebinds, key(fi, "validated schema is the one used"),
+                      f"`{arg.id}` is replaced after assert_valid_schema ({[norm(r.ast)[:70] for r in rebinds]}): what the plugins / later steps return is written without having been validated",
+                      fi.loc(vn.ast), okmsg=f"main.{fn}: `{arg.id}` is not rebound after its validation")
     # nothing else in the validators' call trees writes
     for fk in ("config:get_client_settings", "config:get_graphql_schema_settings", "schema:get_graphql_queries", "schema:get_graphql_schema_from_path",
                "schema:get_graphql_schema_from_url", "plugins.explorer:get_plugins_types", PG + ".add_operation", "client_generators.package:get_package_generator"):
@@ -1530,12 +1545,13 @@ def c09_r5(ctx):
                 if isinstance(m, ast.Call) and any(isinstance(c, ast.Call) and isinstance(c.func, ast.Attribute) and c.func.attr == acc for c in ast.walk(m)):
                     fed = True
             v = x.env.get(dest)
-            if v is not None and any(isinstance(c, ast.Call) and isinstance(c.func, ast.Attribute) and c.func.attr == acc for c in ast.walk(v)):
-                fed = True
+            if v is not None and any(isinstance(c, ast.Call) and isinstance(c.func, ast.Attribute) and c.func.attr == acc for c in ast.walk(v)) \
+                    and (isinstance(strip_pre(v), (ast.ListComp, ast.SetComp)) or any(isinstance(n, ast.Attribute) and norm(n) == dest for n in ast.walk(v))):
+                fed = True      # rebinding that keeps what was there (`x = x + ...`) or one comprehension over all fragments
         if not fed:
             # plain scan (the update may sit in a loop body the interpreter summarises)
             for c in ast.walk(fg.node):
-                if isinstance(c, (ast.Call, ast.Assign, ast.AugAssign)) and dest in norm(c)[:len(dest) + 12] and f".{acc}(" in norm(c):
+                if isinstance(c, (ast.Call, ast.AugAssign)) and dest in norm(c)[:len(dest) + 12] and f".{acc}(" in norm(c):
                     fed = True
         ctx.check(fed, key(fg, f"{dest} <- {acc}"), f"FragmentsGenerator.generate never adds the per-fragment generator's {acc}() to {dest}: "
                   + ("enums used only inside fragments are pruned under include_all_enums=false and fragments.py fails to import" if acc == "get_used_enums" else "fragment classes are missing from the package's __init__"),
@@ -1630,3 +1646,112 @@ def c17_r7(ctx):
         ctx.check(good, key(fi, label), f"{label}: expected {'MissingConfiguration' if want is None else want}, got {[o.text()[:100] for o in outs]}"
                   + (" (a pyproject.toml that configures other tools only must fail with MissingConfiguration, not KeyError)" if want is None else ""), fi.loc(),
                   okmsg=f"{label} -> {'MissingConfiguration' if want is None else want}")
+
+
+@rule("C04.R12", "every bundled base client is shipped with the exceptions module it imports; defaults select the client the two flags name", min_instances=7,
+      also=["C11", "C12", "C13", "C17"])
+def c04_r12(ctx):
+    repo = ctx.repo
+    inc = repo.func(PG + "._include_exceptions")
+    # the membership test that decides whether exceptions.py is copied
+    members: Set[str] = set()
+    for c in walk_no_nested(inc.node):
+        if isinstance(c, ast.Compare) and len(c.ops) == 1 and isinstance(c.ops[0], ast.In) and norm(c.left) == "self.base_client_file_path":
+            rhs = c.comparators[0]
+            for e in getattr(rhs, "elts", []):
+                members.add(dotted(e) or norm(e))
+    if not members:
+        raise AnalysisError("_include_exceptions: membership test on self.base_client_file_path not found")
+    # (a) the bundled clients: files under dependencies/ that import from .exceptions and define a client class
+    cm = repo.mod("client_generators.constants")
+    bundled: Dict[str, str] = {}
+    for name, vals in cm.assigns.items():
+        if name.startswith("DEFAULT_") and name.endswith("_PATH"):
+            txt = norm(vals[-1])
+            fn_ = [x.value for x in ast.walk(vals[-1]) if isinstance(x, ast.Constant) and isinstance(x.value, str) and x.value.endswith(".py")]
+            if fn_:
+                bundled[name] = fn_[-1]
+    for name, fname in sorted(bundled.items()):
+        mod = next((m for m in repo.modules.values() if m.relpath.endswith("client_generators/dependencies/" + fname)), None)
+        needs = mod is not None and any(isinstance(n, ast.ImportFrom) and n.level == 1 and n.module == "exceptions" for n in ast.walk(mod.tree))
+        if not needs:
+            ctx.ok(f"{name}: {fname} does not import the exceptions module")
+            continue
+        # the constants module spells the names through the original source text: compare by constant name
+        src_names = {n for n in members}
+        ctx.check(name in src_names or any(name == m.split(".")[-1] for m in src_names) or _const_in(repo, inc, name, members), key(inc, name),
+                  f"{fname} (the default base client for one flag combination) does `from .exceptions import ...` but {name} is not in the list that makes "
+                  f"_include_exceptions copy exceptions.py: the generated package fails to import (ModuleNotFoundError: .exceptions)", inc.loc(),
+                  okmsg=f"{name}: exceptions.py shipped with {fname}")
+    # (b) the default table of the settings: (async, telemetry) -> the constant named after exactly these flags
+    sd = repo.func("settings:ClientSettings._set_default_base_client_data")
+    tables = [n for n in ast.walk(sd.node) if isinstance(n, ast.Dict) and n.keys and all(isinstance(k, ast.Tuple) and len(k.elts) == 2 and all(isinstance(e, ast.Constant) for e in k.elts) for k in n.keys)]
+    if len(tables) != 1 or len(tables[0].keys) != 4:
+        raise AnalysisError("_set_default_base_client_data: the (async, telemetry) table was not found")
+    src_mod = repo.mod("settings")
+    orig = ast.parse(src_mod.source)
+    otab = [n for n in ast.walk(orig) if isinstance(n, ast.Dict) and n.keys and all(isinstance(k, ast.Tuple) and len(k.elts) == 2 and all(isinstance(e, ast.Constant) for e in k.elts) for k in n.keys)]
+    for k, v in zip(otab[0].keys, otab[0].values) if otab else []:
+        a, o = k.elts[0].value, k.elts[1].value
+        names = [dotted(e) for e in getattr(v, "elts", [])]
+        good = len(names) == 2 and all(n for n in names) and all((("ASYNC" in n) == bool(a)) and (("OPEN_TELEMETRY" in n) == bool(o)) for n in names) \
+            and names[0].endswith("_PATH") and names[1].endswith("_NAME")
+        ctx.check(good, key(sd, f"default async={a} telemetry={o}"), f"async_client={a}, opentelemetry_client={o} selects {names}: the base client file / class must be the one named after exactly these flags "
+                  "(otherwise a sync package is built on the async base client or telemetry is silently dropped)", sd.loc(), okmsg=f"async={a} telemetry={o} -> {names}")
+
+
+def _const_in(repo, fi, name: str, members: Set[str]) -> bool:
+    """constants are folded by the loader: compare by value"""
+    cm = repo.mod("client_generators.constants")
+    vals = cm.assigns.get(name)
+    if not vals:
+        return False
+    want = norm(vals[-1])
+    return any(m == want or want in m for m in members)
+
+
+@rule("C04.R13", "the class a client method imports and returns is the root class its result module defines", min_instances=3, also=["C01", "C12", "C18", "C02"])
+def c04_r13(ctx):
+    repo = ctx.repo
+    # producer: the root class of a result module
+    rt = repo.cls("client_generators.result_types:ResultTypesGenerator")
+    init = rt.methods["__init__"]
+    envi = {norm(st.targets[0]): st.value for st in ast.walk(init.node) if isinstance(st, ast.Assign) and len(st.targets) == 1}
+    roots = [c for c in ast.walk(init.node) if isinstance(c, ast.Call) and norm(c.func) == "self._parse_type_definition" and kw(c, "class_name") is not None]
+    if len(roots) != 1:
+        raise AnalysisError(f"ResultTypesGenerator.__init__: {len(roots)} root _parse_type_definition calls")
+    rc = kw(roots[0], "class_name")
+    inner = allargs(rc)[0] if isinstance(rc, ast.Call) and dotted(rc.func) == "str_to_pascal_case" and allargs(rc) else None
+    inner = envi.get(norm(inner), inner) if inner is not None else None
+    good = inner is not None and norm(inner) == "self.operation_definition.name.value"
+    ctx.check(good, key(init, "root class"), f"the root class of a result module is named {norm(rc)[:80]}; expected str_to_pascal_case(<operation name>)", init.loc(roots[0]),
+              okmsg="result module: root class = PascalCase(operation name)")
+    # consumer: what add_operation tells the client generator to import
+    ao = repo.func(PG + ".add_operation")
+    outs = [o for o in Interp(ao, lambda e: (False if norm(strip_pre(e)) in ("not name", "not definition.name") else True if norm(strip_pre(e)) in ("name", "definition.name") else None),
+                               is_effect=lambda c: norm(c.func) == "self.client_generator.add_method").run() if o.kind != "raise"]
+    vals = set()
+    mods = set()
+    for o in outs:
+        for e in o.effects:
+            e = strip_pre(e)
+            v = kw(e, "return_type")
+            m = kw(e, "return_type_module")
+            from ..absint import subst as _sb
+            if v is not None:
+                vals.add(norm(strip_pre(_sb(v, o.env, deep=True))))
+            if m is not None:
+                mods.add(norm(strip_pre(_sb(m, o.env, deep=True))))
+    ctx.check(vals == {"str_to_pascal_case(definition.name.value)"} or vals == {"str_to_pascal_case(name=definition.name.value)"}, key(ao, "return type"),
+              f"the client method returns / imports {sorted(vals)}; the result module defines str_to_pascal_case(<operation name>) - any other derivation (from the snake-cased method name, say) "
+              "names a class that does not exist for names such as `getHTTPStatus` (ImportError in client.py)", ao.loc(), okmsg="client: return type = PascalCase(operation name)")
+    # the module it is imported from is the module the result types are written to
+    stores = [st for st in walk_no_nested(ao.node) if isinstance(st, ast.Assign) and norm(st.targets[0]).startswith("self._result_types_files[")]
+    fnm = strip_pre(stores[0].targets[0].slice) if stores else None
+    fnm_v = None
+    for o in outs:
+        if isinstance(fnm, ast.Name) and o.env.get(fnm.id) is not None:
+            from ..absint import subst as _sb2
+            fnm_v = norm(strip_pre(_sb2(o.env[fnm.id], o.env, deep=True)))
+    ctx.check(len(mods) == 1 and fnm_v is not None and fnm_v == "f'{" + sorted(mods)[0] + "}.py'", key(ao, "return type module"),
+              f"the client imports the return type from {sorted(mods)} but the result types are written to {fnm_v}", ao.loc(), okmsg="client imports the return type from the module that is written")
